@@ -124,6 +124,11 @@ func c28RandID(r *rand.Rand) string {
 	return sb.String()
 }
 
+// c28UniAlnum: Arabic-Indic, extended Arabic-Indic, Devanagari, Bengali, Thai, fullwidth and mathematical digits
+// (category Nd), superscripts / fractions / Roman numerals (No, Nl), fullwidth, Greek, Cyrillic, CJK letters.
+var c28UniAlnum = []rune{0x0660, 0x0663, 0x0669, 0x06F0, 0x06F5, 0x0966, 0x096F, 0x09E7, 0x0E53, 0xFF10, 0xFF13, 0xFF19, 0x1D7CE, 0x1D7FF,
+	0x00B2, 0x00B3, 0x00B9, 0x2074, 0x00BD, 0x2160, 0xFF21, 0xFF41, 0xFF3A, 0x0391, 0x03C9, 0x0416, 0x044F, 0x00C0, 0x00DF, 0x4E2D, 0x3042, 0x05D0, 0x0627}
+
 var c28Exotic = []string{"é", "É", "碚", "ß", "Ω", "\U0001F600", " ", " ", "�", "\xff", "\xc3", "\x80", "\xe2\x82", "\xed\xa0\x80", "\xf4\x90\x80\x80", "\xc0\x80", "\x00", "\x7f", "\x1b"}
 
 // c28QuotedBody produces the contents of a quoted name that the lexer admits for quote q (no newline,
@@ -141,6 +146,9 @@ func c28QuotedBody(r *rand.Rand, q byte) string {
 			piece = string(rune(0x80 + r.Intn(0x100))) // Latin-1 / Latin Extended-A (x%02x vs u%06x boundary)
 		case 10:
 			piece = string(rune(r.Intn(0x110000)))
+			if r.Intn(2) == 0 {
+				piece = string(c28UniAlnum[r.Intn(len(c28UniAlnum))])
+			}
 		case 0, 1:
 			piece = c28Punct[r.Intn(len(c28Punct))]
 		case 2:
@@ -339,7 +347,10 @@ func c28ExplicitBad(id string) bool {
 
 var c28UpperRE = regexp.MustCompile(`^[A-Z0-9_]+$`)
 
-type c28Tok struct{ name, id string }
+type c28Tok struct {
+	name, id string
+	space    bool // the lexeme carries the (space) attribute
+}
 
 func c28Variant(r *rand.Rand, w1, w2 string, nonterm bool) (name, id string) {
 	up := strings.ToUpper
@@ -446,6 +457,9 @@ func c28ErrKind(e *status.Error) string {
 	if strings.Contains(msg, " is redeclared with a different ID (") {
 		return "reid:" + hexs([]byte(msg[:strings.Index(msg, " is redeclared with a different ID (")]))
 	}
+	if strings.HasSuffix(msg, " is declared as both a space and non-space terminal") {
+		return "spacemix:" + hexs([]byte(strings.TrimSuffix(msg, " is declared as both a space and non-space terminal")))
+	}
 	if strings.HasPrefix(msg, "duplicate name ") {
 		return "dupname:" + hexs([]byte(strings.TrimPrefix(msg, "duplicate name ")))
 	}
@@ -456,7 +470,7 @@ func (c *Ctx) c28Grammar(findings bool) {
 	r := c.Rng
 	nt := 1 + r.Intn(5)
 	nn := r.Intn(5)
-	toks := []c28Tok{{"tok", ""}}
+	toks := []c28Tok{{"tok", "", false}}
 	// few stems per grammar, so that variants of the same words meet
 	stems := make([]string, 1+r.Intn(3))
 	for i := range stems {
@@ -469,6 +483,9 @@ func (c *Ctx) c28Grammar(findings bool) {
 			if r.Intn(3) == 0 {
 				t.id = "OTHER_ID"
 			}
+			if r.Intn(4) == 0 {
+				t.space = !t.space // "declared as both a space and non-space terminal"
+			}
 			toks = append(toks, t)
 			continue
 		}
@@ -476,7 +493,7 @@ func (c *Ctx) c28Grammar(findings bool) {
 		if id == "" && r.Intn(3) == 0 {
 			id = c28ExplicitID(r, stems)
 		}
-		toks = append(toks, c28Tok{name, id})
+		toks = append(toks, c28Tok{name, id, r.Intn(4) == 0})
 	}
 	nts := []string{"input"}
 	for i := 0; i < nn; i++ {
@@ -514,14 +531,21 @@ func (c *Ctx) c28GrammarCase(toks []c28Tok, nts []string, flex, findings bool) {
 		if t.id != "" {
 			fmt.Fprintf(&src, " (%s)", t.id)
 		}
+		attr := ""
+		if t.space {
+			attr = " (space)"
+		}
 		if flex {
-			src.WriteString(":\n")
+			src.WriteString(":" + attr + "\n")
 		} else {
-			fmt.Fprintf(&src, ": /q%dz/\n", i)
+			fmt.Fprintf(&src, ": /q%dz/%s\n", i, attr)
 		}
 		id := "-"
 		if t.id != "" {
 			id = hexs([]byte(t.id))
+		}
+		if t.space {
+			id += ":s"
 		}
 		tparts = append(tparts, hexs([]byte(t.name))+":"+id)
 	}
@@ -689,10 +713,10 @@ func c28Compile(src string, toks []c28Tok, nts []string) (ans string, syms []c28
 func c28(c *Ctx) {
 	findings := os.Getenv("VERIF_FINDINGS") != ""
 	c.Rule = "ident: every name goes through ident.Produce in all 4 styles and through the real tm lexer (is it one ID/keyword/quoted_id/scon token?); " +
-		"names = exhaustive one-byte and escaped one-byte quoted names in both quote kinds (covers the charName table), every single rune U+0080..U+017F quoted, keyword-like words, random ID spellings over biased alphabets " +
+		"names = exhaustive one-byte and escaped one-byte quoted names in both quote kinds (covers the charName table), every single rune U+0080..U+017F quoted, 33 non-ASCII digits/letters (Arabic-Indic, Devanagari, fullwidth, mathematical, superscripts, Greek, Cyrillic, CJK) alone and next to ASCII letters/digits, keyword-like words, random ID spellings over biased alphabets " +
 		"(humps, digits, '_', '-'), quoted names built from punctuation/words/escapes/non-ASCII/invalid UTF-8, and a malformed stream (random bytes, unbalanced quotes, '$' names); " +
 		"non-trivial = lexer-admitted name longer than one byte, distinct by (style,name). " +
-		"gram: .tm grammars (1-6 lexemes, 1-5 nonterminals; one in five as a C++ flexMode grammar = the second copy of the explicit-ID code) whose names are variants of shared stems so that IDs collide " +
+		"gram: .tm grammars (1-6 lexemes, a quarter of them with the (space) attribute in either declaration order, 1-5 nonterminals; one in five as a C++ flexMode grammar = the second copy of the explicit-ID code) whose names are variants of shared stems so that IDs collide " +
 		"(a_b/a-b/aB/AB/'ab'/char-name spellings/eoi/invalid_token); a third of the lexemes (ID-named and quoted) carry an explicit (ID) clause built from the same stems: " +
 		"all-lower, all-upper and MIXED case (thinArrow, fat-Arrow, Foo-Bar, FOO_bar, _Foo), '-'/'_'/'--'/'__' inside, leading/trailing '_', digits, keywords (set, as, No-Eoi); " +
 		"run through compiler.Compile; answer = Syms[].ID or the classified error list. " +
@@ -710,8 +734,8 @@ func c28(c *Ctx) {
 		toks []c28Tok
 		nts  []string
 	}{
-		{[]c28Tok{{"tok", ""}, {"foo", "A-B"}, {"'=>'", "FAT-ARROW"}, {"b", "_"}}, []string{"input"}},
-		{[]c28Tok{{"tok", ""}, {"_", ""}, {"''", ""}}, []string{"input", "_"}},
+		{[]c28Tok{{"tok", "", false}, {"foo", "A-B", false}, {"'=>'", "FAT-ARROW", false}, {"b", "_", false}}, []string{"input"}},
+		{[]c28Tok{{"tok", "", false}, {"_", "", false}, {"''", "", false}}, []string{"input", "_"}},
 	} {
 		c.c28GrammarCase(pr.toks, pr.nts, false, findings)
 		c.c28GrammarCase(pr.toks, pr.nts, true, findings)
@@ -730,6 +754,13 @@ func c28(c *Ctx) {
 	for cp := 0x80; cp < 0x180; cp++ {
 		c.c28Ident("'"+string(rune(cp))+"'", findings, "quoted-rune1")
 		c.c28Ident("'A"+string(rune(cp))+"B'", findings, "quoted-rune1")
+	}
+	// non-ASCII digits and letters (Unicode Nd / L outside ASCII): must be escaped, never copied
+	for _, cp := range c28UniAlnum {
+		u := string(cp)
+		for _, n := range []string{"'" + u + "'", "'a" + u + "'", "'" + u + "1'", "'A" + u + "B'", "\"" + u + u + "\"", "'\\" + u + "'"} {
+			c.c28Ident(n, findings, "quoted-unicode-alnum")
+		}
 	}
 	for _, w := range c28Words {
 		c.c28Ident(w, findings, "word")
